@@ -1131,10 +1131,11 @@ fn ovf_cases(seed: u64, tier: Tier, queue: &mut Vec<(&'static str, Value, bool, 
         } else {
             dom.push(0);
         }
-        if tier == Tier::Thorough {
+        // thorough: i8 up to length 4, the other types over a larger domain
+        if tier == Tier::Thorough && ty != 0 {
             dom.extend([hi - 1, lo + 1]);
         }
-        let maxlen = if tier == Tier::Thorough { 4 } else { 3 };
+        let maxlen = if tier == Tier::Thorough && ty == 0 { 4 } else { 3 };
         for s in all_seqs(&dom, maxlen) {
             if s.is_empty() {
                 continue;
@@ -1251,7 +1252,7 @@ fn big_cases(seed: u64, tier: Tier, queue: &mut Vec<(&'static str, Value, bool, 
     }
     for (n, is_huge) in all {
         for cid in 0..9i64 {
-            let nshapes = if is_huge { 3 } else if tier == Tier::Thorough { 8 } else { 5 };
+            let nshapes = if is_huge { 3 } else if tier == Tier::Thorough { 8 } else { 4 };
             for shape_ix in 0..nshapes {
                 // shapes 0, 1, 2 always: the two entry styles alone, and a lifted split
                 let shape = if shape_ix < 3 { shape_ix } else { 3 + rng.below(9) };
@@ -1262,7 +1263,7 @@ fn big_cases(seed: u64, tier: Tier, queue: &mut Vec<(&'static str, Value, bool, 
                     (Tier::Thorough, true) => 8_000_000,
                     (Tier::Thorough, false) => 2_000_000,
                     (_, true) => 2_500_000,
-                    (_, false) => 400_000,
+                    (_, false) => 250_000,
                 };
                 // many parts: psize first (the merges cost parts * size^2 in the model)
                 let psize = match rng.below(6) {
@@ -1359,9 +1360,9 @@ fn ladder_cases(seed: u64, tier: Tier, queue: &mut Vec<(&'static str, Value, boo
     let thorough = tier == Tier::Thorough;
     let leafs = |rng: &mut SplitMix64| *rng.pick(&[(5i64, 5i64), (5, 6), (6, 5), (6, 6), (5, 5)]);
     // ---- TopK: k around the thresholds, parts of k, k+1, 2k, 3k ... values on both sides
-    let mut ks: Vec<i64> = vec![15, 16, 17, 20, 32, 33, 63, 64, 65, 100, 101, 127, 128, 129, 255, 256, 257, 300, 512];
+    let mut ks: Vec<i64> = vec![15, 16, 17, 20, 32, 33, 63, 64, 65, 100, 101, 127, 128, 129, 255, 256, 257, 512];
     if thorough {
-        ks.extend([511, 513, 1000, 1023, 1024, 1025]);
+        ks.extend([300, 511, 513, 1000, 1023, 1024, 1025]);
     }
     for k in ks {
         let combos: Vec<(i64, i64)> = vec![(k, k), (k + 1, k), (k - 1, k + 1), (2 * k, 2 * k), (k, 3 * k), (3 * k, k), (k / 2, k / 2 + 1)];
@@ -1381,9 +1382,9 @@ fn ladder_cases(seed: u64, tier: Tier, queue: &mut Vec<(&'static str, Value, boo
         }
     }
     // ---- DistinctCount / DistinctSet: d distinct values around the thresholds
-    let mut ds: Vec<i64> = vec![15, 16, 17, 20, 31, 32, 33, 63, 64, 65, 100, 127, 128, 129, 255, 256, 257, 511, 512, 513, 1000, 1023, 1024, 1025];
+    let mut ds: Vec<i64> = vec![15, 16, 17, 20, 31, 32, 33, 63, 64, 65, 100, 127, 128, 129, 255, 256, 257, 511, 512, 513, 1024, 1025];
     if thorough {
-        ds.extend([2047, 2048, 2049, 4095, 4096, 4097]);
+        ds.extend([1000, 1023, 2047, 2048, 2049, 4095, 4096, 4097]);
     }
     for d in ds {
         for cid in [5i64, 6] {
